@@ -145,8 +145,19 @@ class WorldGen:
     # ---------------------------------------------------------------- named definitions
     def fresh_body(self, iface, borrow_ok=True):
         r = self.r
-        k = r.choice(["record", "record", "variant", "variant", "enum", "flags", "alias", "alias", "resource"])
+        k = r.choice(["record", "record", "variant", "variant", "enum", "flags", "alias", "alias", "resource",
+                      "result-alias"])
         budget = self.maxsize
+        if k == "result-alias":
+            # `type r = result<ok, err>` with a named error type when one is visible
+            vis = [n for n in self.visible(iface) if not self.lookup(iface, n).resource
+                   and not self.lookup(iface, n).borrow]
+            er = (("name", r.choice(vis)), self.lookup(iface, vis[0]).size, False) if vis and r.random() < 0.8 \
+                else (("prim", r.choice(PRIMS)), 1, False)
+            if er[0][0] == "name":
+                er = (er[0], self.lookup(iface, er[0][1]).size, False)
+            ok = self.texpr(iface, 1, False, budget // 2) if r.random() < 0.6 else None
+            return (("alias", ("result", ok[0] if ok else None, er[0])), 1 + (ok[1] if ok else 1) + er[1], False)
         if k == "record":
             n = r.randint(1, 4)
             names = r.sample(FIELDS, n)
@@ -374,7 +385,7 @@ class WorldGen:
                 ok = self.texpr(iface, 1, False, self.maxsize // 2)[0] if r.random() < 0.6 else None
                 res = " -> " + self.show(("result", ok, er))
                 stats["fn-result-inline-error"] += 1
-            elif y < 0.65:
+            elif y < 0.75:
                 named_results = [n for n in vis if self.is_resultish(iface, n)]
                 if named_results:
                     res = " -> " + r.choice(named_results)
@@ -503,6 +514,18 @@ def gen_request(rng, big=False):
     return "W=" + wit.encode().hex() + " M=" + b"w".hex() + " " + " ".join("F=" + f for f in filters), wit, stats
 
 
+def par_lines(cmd, lines, timeout, k=8):
+    """run_lines over k chunks concurrently (the line servers are stateless per request)"""
+    from concurrent.futures import ThreadPoolExecutor
+    if len(lines) < 400:
+        return run_lines(cmd, lines, timeout=timeout)
+    size = (len(lines) + k - 1) // k
+    chunks = [lines[i:i + size] for i in range(0, len(lines), size)]
+    with ThreadPoolExecutor(max_workers=k) as ex:
+        res = list(ex.map(lambda ch: run_lines(cmd, ch, timeout=timeout), chunks))
+    return [a for r in res for a in r]
+
+
 KIND = {"R": "record", "Z": "resource", "H": "own", "B": "borrow", "F": "flags", "T": "tuple", "V": "variant",
         "E": "enum", "O": "option", "X": "result", "L": "list", "M": "map", "A": "fixed-list", "U": "future",
         "S": "stream", "Y": "alias"}
@@ -530,7 +553,11 @@ def run(c):
     if c.tier == "thorough" and ok: c.leanchecker("Witverif.Props.C28")
     model = c.model_exe("m_typeseq")
     impl = c.cargo_build("typeseq-run")
-    n = 1500 if c.tier == "quick" else 20000
+    if os.environ.get("VERIF_C28_IMPL_OVERRIDE"):
+        # experiments only (a harness binary built against an edited copy of crates/core); recorded
+        impl = os.environ["VERIF_C28_IMPL_OVERRIDE"]
+        c.notes.append("implementation binary overridden by VERIF_C28_IMPL_OVERRIDE=" + impl)
+    n = 4000 if c.tier == "quick" else 40000
     reqs, wits = [], []
     cp = os.path.join(VERIF, "corpus", "C28.txt")
     ncorpus = 0
@@ -556,7 +583,7 @@ def run(c):
         reqs.append(rq); wits.append(w); gstats.update(st)
     if not impl:
         return
-    iout = run_lines([impl], reqs, timeout=600)
+    iout = par_lines([impl], reqs, timeout=900)
     good = [(r, w, o) for r, w, o in zip(reqs, wits, iout) if o.startswith("ok ")]
     rejected = [(w, o) for w, o in zip(wits, iout) if not o.startswith("ok ")]
     for w, o in rejected:
@@ -612,7 +639,7 @@ def run(c):
         return " ".join(["I=" + d.get("I", "?")] + ["X=" + ";".join(x.split(";")[1:]) for x in d["X"]])
     keyreq = [" ".join(t for t in o.split(" ") if t[:2] in ("T=", "N=", "U=", "L=")) for _, _, o in good]
     if model:
-        mout = run_lines([model], [o for _, _, o in good], timeout=900)
+        mout = par_lines([model], [o for _, _, o in good], timeout=1200)
         manswers = [m.split("\t")[0] for m in mout]
         mism = c.compare("typeseq", keyreq, [strip_impl(o) for _, _, o in good], manswers, nontrivial=lambda r, o: True)
         c.nontrivial = set()
